@@ -20,7 +20,7 @@ SPECS = {
     own_ops={"reopen"},
     weights=["put"] * 6 + ["rem"] * 2 + ["flush"] * 4 + ["reopen"] * 3 + ["idxgc"] * 3 + ["prigc"] * 2 + ["get"],
     bfs_weights=["put", "rem", "flush", "reopen"], bfs_nk=2, bfs_nv=2,
-    deadlines=(0, 2), lowuses=(0, 85), bitsset=(8,),
+    deadlines=(0, 0, 1, 2, 3, 5), lowuses=(0, 85), bitsset=(8,),
     primaries=("mh", "mh", "cid"), limits=(30, 70, 200, 1 << 30),
     what="Close/reopen at arbitrary positions with the saved snapshot kept, deleted or truncated; at every reopen both recovery paths are also run on copies of the closed directory and their bucket tables compared"),
  "C09": dict(
